@@ -11,9 +11,9 @@
 EXTENDS Naturals, TLC
 
 Wraps   == {"none", "function", "method", "if", "try", "with", "nested", "async", "loop"}
-Layouts == {"lf", "crlf", "nofinalnl", "tabs", "comments", "blanklines"}
+Layouts == {"lf", "crlf", "nofinalnl", "tabs", "comments", "blanklines", "bom"}
 Mults   == {1, 2}
-Imports == {"asis", "local"}
+Imports == {"asis", "local", "decoy"}   \* decoy: an unrelated function imports locally what the fix needs
 
 VARIABLES v, st
 
@@ -21,6 +21,7 @@ Compatible(x) ==
   /\ (x.layout = "tabs") => (x.wrap # "none" \/ x.imp = "local")      \* tabs need indentation to act on
   /\ (x.imp = "local") => x.wrap \in {"none", "if", "try", "loop"}     \* keep nesting depth bounded
   /\ (x.wrap = "async") => x.mult = 1
+  /\ (x.imp = "decoy") => x.mult = 1
 
 Init == /\ st = "init"
         /\ \E w \in Wraps, l \in Layouts, m \in Mults, i \in Imports :
